@@ -132,10 +132,17 @@ pub(crate) fn verif_reencoder_as<'r, R: BufRead + 'r>(
 /// Verification hook: see [`crate::verif::yaml_chunks`].
 #[cfg(feature = "verif")]
 pub(crate) fn verif_chunks<R: io::Read>(r: R, max_docs: usize) -> Vec<io::Result<(String, bool)>> {
-	Chunker::new(r)
-		.take(max_docs)
-		.map(|doc| doc.map(|doc| (doc.content().to_owned(), doc.is_collection())))
-		.collect()
+	// Like every consumer in this crate, stop at the first error: the chunker
+	// is not meant to be polled again after it has failed.
+	let mut items = vec![];
+	for doc in Chunker::new(r).take(max_docs) {
+		let failed = doc.is_err();
+		items.push(doc.map(|doc| (doc.content().to_owned(), doc.is_collection())));
+		if failed {
+			break;
+		}
+	}
+	items
 }
 
 /// Verification hook: see [`crate::verif::yaml_events_then_drop`].
